@@ -293,7 +293,8 @@ def mix_configs(tier):
     out = []
     for inlets, recvs in base:
         for r in recvs:
-            for q in (['none', 'kw', 'heat'] if quick else ['none', 'kw', 'heat', 'kw+heat', 'falsy']):
+            # ('kw+heat' - a heat object among the inlets AND the Q keyword in one call - moved into the quick tier after seeded change C02_9)
+            for q in (['none', 'kw', 'heat', 'kw+heat'] if quick else ['none', 'kw', 'heat', 'kw+heat', 'falsy']):
                 for opt in ['', 'conserve_phases']:
                     if opt and quick and q != 'kw' and not (q == 'heat' and inlets is base[0][0] and r != 'g'):
                         continue
